@@ -24,7 +24,7 @@ pub struct Node<S: Sch> {
 }
 
 pub fn scheme_info<S: Sch>() -> SchemeInfo {
-    SchemeInfo { key_name: S::key_name().to_vec(), pk_raw: [rlp::enc_str(&S::pub_raw(0)), rlp::enc_str(&S::pub_raw(1))] }
+    SchemeInfo { key_names: vec![S::key_name().to_vec(); 2], pk_raw: vec![rlp::enc_str(&S::pub_raw(0)), rlp::enc_str(&S::pub_raw(1))] }
 }
 
 pub struct Ctx<S: Sch> {
